@@ -1,8 +1,10 @@
 import Solvor.Path.HSearch
-/-! Path: the optimality invariant of the Dijkstra mirror (heap key = `g`, non-negative weights):
-closed nodes are at most the last popped key `M`, heap keys are at least `M`, every open node has a
-heap entry carrying its current `g`, and expanded nodes are relaxed along all their out-edges.  At a
-goal pop the capped `g` map `astarPot n g [] c` is therefore a feasible potential (`dijkstra_certifies`). -/
+/-! Path: the optimality invariant of the Dijkstra / A* mirror (heap key `f = g + h`, `h` a consistent
+heuristic — `h = 0` for Dijkstra —, non-negative weights): closed nodes have `f` at most the last
+popped key `M`, heap keys are at least `M`, every open node has a heap entry carrying its current `f`,
+and expanded nodes are relaxed along all their out-edges.  At a goal pop the map
+`astarPot n g h c = min (g v) (c - h v)` is therefore a feasible potential (`dijkstra_certifies`,
+`astar_certifies`). -/
 namespace Solvor.Path
 set_option linter.unusedSectionVars false
 set_option linter.unusedVariables false
@@ -63,12 +65,12 @@ theorem pruned_mono {maxCost : Option Int} {a b : Int} (hab : a ≤ b) (h : prun
   | some m => simp only [pruned, intNum, decide_eq_true_eq] at h ⊢; omega
 
 section dinv
-variable (E : List (Edge Int)) (maxCost : Option Int) (isGoal : Nat → Bool)
+variable (E : List (Edge Int)) (maxCost : Option Int) (isGoal : Nat → Bool) (h : List Int)
 
 structure DInv (cur? : Option Nat) (M : Int) (st : HSt Int) : Prop where
-  key_ge : ∀ e ∈ st.heap, ∃ c, look st.g e.2.2.2 = some c ∧ c ≤ e.1
-  open_key : ∀ v c, look st.g v = some c → v ∉ st.closed → ∃ e ∈ st.heap, e.2.2.2 = v ∧ e.1 = c
-  closed_le : ∀ u ∈ st.closed, ∃ c, look st.g u = some c ∧ c ≤ M
+  key_ge : ∀ e ∈ st.heap, ∃ c, look st.g e.2.2.2 = some c ∧ c + h.getD e.2.2.2 0 ≤ e.1
+  open_key : ∀ v c, look st.g v = some c → v ∉ st.closed → ∃ e ∈ st.heap, e.2.2.2 = v ∧ e.1 = c + h.getD v 0
+  closed_le : ∀ u ∈ st.closed, ∃ c, look st.g u = some c ∧ c + h.getD u 0 ≤ M
   heap_ge : ∀ e ∈ st.heap, M ≤ e.1
   nonneg : ∀ v c, look st.g v = some c → 0 ≤ c
   relaxed_all : ∀ u ∈ st.closed, cur? ≠ some u → ∀ cu, look st.g u = some cu → pruned intNum maxCost cu = false →
@@ -76,12 +78,18 @@ structure DInv (cur? : Option Nat) (M : Int) (st : HSt Int) : Prop where
   nongoal : ∀ u ∈ st.closed, cur? ≠ some u → ∀ cu, look st.g u = some cu → pruned intNum maxCost cu = false →
     isGoal u = false
 
-variable {E maxCost isGoal}
+variable {E maxCost isGoal h}
 
-theorem dinv_init {n s : Nat} (hs : s < n) :
-    DInv E maxCost isGoal none 0 (hInit intNum n (fun g _ => g) s) := by
-  show DInv E maxCost isGoal none 0
-      ⟨(Tab.empty n).set s (some 0), Tab.empty n, [], [(0, 0, 0, s)], 1, 0, 0⟩
+/-- the heap key is `g + h` -/
+def KeyIs (fOf : Int → Nat → Int) (h : List Int) : Prop := ∀ g v, fOf g v = g + h.getD v 0
+
+/-- `h` is consistent on `E` -/
+def Consistent (E : List (Edge Int)) (h : List Int) : Prop := ∀ e ∈ E, h.getD e.1 0 ≤ e.2.2 + h.getD e.2.1 0
+
+theorem dinv_init {n s : Nat} {fOf : Int → Nat → Int} (hf : KeyIs fOf h) (hs : s < n) :
+    DInv E maxCost isGoal h none (h.getD s 0) (hInit intNum n fOf s) := by
+  show DInv E maxCost isGoal h none (h.getD s 0)
+      ⟨(Tab.empty n).set s (some 0), Tab.empty n, [], [(fOf 0 s, 0, 0, s)], 1, 0, 0⟩
   have hl : (Tab.empty n : Tab Int).length = n := by simp [Tab.empty]
   have hg : ∀ v, look ((Tab.empty n : Tab Int).set s (some 0)) v = if v = s then some 0 else none := by
     intro v
@@ -90,30 +98,33 @@ theorem dinv_init {n s : Nat} (hs : s < n) :
     · subst h; simp [hl, hs]
     · have : ¬ v = s := fun e => h e.symm
       simp [h, this]
+  have hk : fOf 0 s = h.getD s 0 := by rw [hf]; omega
   refine ⟨?_, ?_, by simp, ?_, ?_, by simp, by simp⟩
-  · intro e he; simp at he; subst he; exact ⟨0, by simp [hg], Int.le_refl _⟩
-  · intro v c h _
-    simp only [hg] at h
-    split at h
-    · next e => cases h; exact ⟨_, List.mem_singleton.mpr rfl, e.symm, rfl⟩
-    · cases h
-  · intro e he; simp at he; subst he; exact Int.le_refl _
-  · intro v c h
-    simp only [hg] at h
-    split at h
-    · cases h; exact Int.le_refl _
-    · cases h
+  · intro e he; simp at he; subst he; exact ⟨0, by simp [hg], by simp only; omega⟩
+  · intro v c hv _
+    simp only [hg] at hv
+    split at hv
+    · next e => cases hv; subst e; exact ⟨_, List.mem_singleton.mpr rfl, rfl, by simp only; omega⟩
+    · cases hv
+  · intro e he; simp at he; subst he; simp only; omega
+  · intro v c hv
+    simp only [hg] at hv
+    split at hv
+    · cases hv; exact Int.le_refl _
+    · cases hv
 
-/-- one neighbour (Dijkstra part) -/
-theorem drelax_step {n s : Nat} {noCost : Prop} (hE : ∀ e ∈ E, e.2.1 < n) {cur : Nat} {gcur : Int} {st : HSt Int}
-    (inv : HInv E n s isGoal noCost (some cur) st) (D : DInv E maxCost isGoal (some cur) gcur st)
+/-- one neighbour (optimality part) -/
+theorem drelax_step {n s : Nat} {noCost : Prop} {fOf : Int → Nat → Int} (hf : KeyIs fOf h) (hcons : Consistent E h)
+    (hE : ∀ e ∈ E, e.2.1 < n) {cur : Nat} {gcur : Int} {st : HSt Int}
+    (inv : HInv E n s isGoal noCost (some cur) st) (D : DInv E maxCost isGoal h (some cur) (gcur + h.getD cur 0) st)
     (hcc : cur ∈ st.closed) (hgc : look st.g cur = some gcur) {v : Nat} {w : Int} (he : (cur, v, w) ∈ E)
     (hw : 0 ≤ w) :
-    DInv E maxCost isGoal (some cur) gcur (hRelax intNum (fun g _ => g) cur gcur st (v, w)) := by
-  rcases hRelax_cases (fun g _ => g) cur gcur st v w with ⟨heq, _⟩ | ⟨hnc, hbetter, heq⟩
+    DInv E maxCost isGoal h (some cur) (gcur + h.getD cur 0) (hRelax intNum fOf cur gcur st (v, w)) := by
+  rcases hRelax_cases fOf cur gcur st v w with ⟨heq, _⟩ | ⟨hnc, hbetter, heq⟩
   · rw [heq]; exact D
   · rw [heq]
     have hvn : v < n := hE _ he
+    have hcv : h.getD cur 0 ≤ w + h.getD v 0 := hcons _ he
     have hG : ∀ x, look (st.g.set v (some (gcur + w))) x = if x = v then some (gcur + w) else look st.g x := by
       intro x; rw [look_set]
       by_cases h : v = x
@@ -126,21 +137,23 @@ theorem drelax_step {n s : Nat} {noCost : Prop} (hE : ∀ e ∈ E, e.2.1 < n) {c
       · rw [h0] at h; cases h
       · rw [h1] at h; cases h; exact h2
     have hg0 : 0 ≤ gcur := D.nonneg cur gcur hgc
+    have hkey : fOf (gcur + w) v = gcur + w + h.getD v 0 := hf _ _
     refine ⟨?_, ?_, ?_, ?_, ?_, ?_, ?_⟩
     · intro e he'
-      rcases List.mem_cons.mp he' with h | h
-      · rw [h]; exact ⟨gcur + w, by simp [hG], Int.le_refl _⟩
-      · obtain ⟨c, hc, hle⟩ := D.key_ge e h
+      rcases List.mem_cons.mp he' with h' | h'
+      · rw [h']; exact ⟨gcur + w, by simp [hG], by simp only [hkey]; omega⟩
+      · obtain ⟨c, hc, hle⟩ := D.key_ge e h'
         by_cases hx : e.2.2.2 = v
         · refine ⟨gcur + w, by simp [hG, hx], ?_⟩
-          rw [hx] at hc
+          rw [hx] at hc hle ⊢
           have := hlow c hc; omega
         · exact ⟨c, by simp [hG, hx, hc], hle⟩
     · intro x c hx hxc
       simp only [hG] at hx
       by_cases hxv : x = v
       · simp only [hxv, if_true, Option.some.injEq] at hx
-        exact ⟨_, List.mem_cons_self, hxv.symm, hx⟩
+        refine ⟨_, List.mem_cons_self, hxv.symm, ?_⟩
+        simp only [hkey, hxv]; omega
       · simp only [hxv, if_false] at hx
         obtain ⟨e, he', hn, hk⟩ := D.open_key x c hx hxc
         exact ⟨e, List.mem_cons_of_mem _ he', hn, hk⟩
@@ -149,9 +162,9 @@ theorem drelax_step {n s : Nat} {noCost : Prop} (hE : ∀ e ∈ E, e.2.1 < n) {c
       have : u ≠ v := fun e => hnc (e ▸ hu)
       exact ⟨c, by simp [hG, this, hc], hle⟩
     · intro e he'
-      rcases List.mem_cons.mp he' with h | h
-      · rw [h]; show gcur ≤ gcur + w; omega
-      · exact D.heap_ge e h
+      rcases List.mem_cons.mp he' with h' | h'
+      · rw [h']; simp only [hkey]; omega
+      · exact D.heap_ge e h'
     · intro x c hx
       simp only [hG] at hx
       split at hx
@@ -171,11 +184,12 @@ theorem drelax_step {n s : Nat} {noCost : Prop} (hE : ∀ e ∈ E, e.2.1 < n) {c
       have hcu' : look st.g u = some cu := by simpa [hG, huv] using hcu
       exact D.nongoal u hu hne cu hcu' hpr
 
-theorem drelax_fold {n s : Nat} {noCost : Prop} (hE : ∀ e ∈ E, e.2.1 < n) (hW : ∀ e ∈ E, 0 ≤ e.2.2) {cur : Nat}
+theorem drelax_fold {n s : Nat} {noCost : Prop} {fOf : Int → Nat → Int} (hf : KeyIs fOf h) (hcons : Consistent E h)
+    (hE : ∀ e ∈ E, e.2.1 < n) (hW : ∀ e ∈ E, 0 ≤ e.2.2) {cur : Nat}
     {gcur : Int} : ∀ (L : List (Nat × Int)) (st : HSt Int), (∀ nb ∈ L, (cur, nb.1, nb.2) ∈ E) →
-    HInv E n s isGoal noCost (some cur) st → DInv E maxCost isGoal (some cur) gcur st → cur ∈ st.closed →
-    look st.g cur = some gcur → (∀ x, look st.parent x = some cur → x ∉ st.closed) →
-    DInv E maxCost isGoal (some cur) gcur (L.foldl (hRelax intNum (fun g _ => g) cur gcur) st) := by
+    HInv E n s isGoal noCost (some cur) st → DInv E maxCost isGoal h (some cur) (gcur + h.getD cur 0) st →
+    cur ∈ st.closed → look st.g cur = some gcur → (∀ x, look st.parent x = some cur → x ∉ st.closed) →
+    DInv E maxCost isGoal h (some cur) (gcur + h.getD cur 0) (L.foldl (hRelax intNum fOf cur gcur) st) := by
   intro L
   induction L with
   | nil => intro st _ _ D _ _ _; exact D
@@ -183,64 +197,66 @@ theorem drelax_fold {n s : Nat} {noCost : Prop} (hE : ∀ e ∈ E, e.2.1 < n) (h
     intro st hL inv D hcc hgc hpc
     obtain ⟨v, w⟩ := nb
     have he : (cur, v, w) ∈ E := hL (v, w) List.mem_cons_self
-    obtain ⟨i1, c1, g1, p1, _, _⟩ := hrelax_step (fun g _ => g) hE inv hcc hgc hpc he
-    have D1 := drelax_step hE inv D hcc hgc he (hW _ he)
+    obtain ⟨i1, c1, g1, p1, _, _⟩ := hrelax_step fOf hE inv hcc hgc hpc he
+    have D1 := drelax_step hf hcons hE inv D hcc hgc he (hW _ he)
     rw [List.foldl_cons]
     exact ih _ (fun x hx => hL x (List.mem_cons_of_mem _ hx)) i1 D1 (by rw [c1]; exact hcc) g1
       (by rw [c1]; exact p1)
 
-theorem dinv_skip {M : Int} {st : HSt Int} (D : DInv E maxCost isGoal none M st) {e : Ent} {rest : List Ent}
+theorem dinv_skip {M : Int} {st : HSt Int} (D : DInv E maxCost isGoal h none M st) {e : Ent} {rest : List Ent}
     (hp : popMin intNum st.heap = some (e, rest)) (hc : e.2.2.2 ∈ st.closed) :
-    DInv E maxCost isGoal none M { st with heap := rest } := by
+    DInv E maxCost isGoal h none M { st with heap := rest } := by
   obtain ⟨hm, hsub, hcov⟩ := popMin_some hp
   refine ⟨fun x hx => D.key_ge x (hsub x hx), ?_, D.closed_le, fun x hx => D.heap_ge x (hsub x hx), D.nonneg,
     D.relaxed_all, D.nongoal⟩
   intro v c hv hvc
   obtain ⟨e', he', hn, hk⟩ := D.open_key v c hv hvc
-  rcases hcov e' he' with h | h
-  · exact absurd (by rw [← hn, h]; exact hc) hvc
-  · exact ⟨e', h, hn, hk⟩
+  rcases hcov e' he' with h' | h'
+  · exact absurd (by rw [← hn, h']; exact hc) hvc
+  · exact ⟨e', h', hn, hk⟩
 
-/-- closing the popped node: its `g` is the popped key, which becomes the new `M` -/
-theorem dinv_close {M : Int} {st : HSt Int} (D : DInv E maxCost isGoal none M st) {e : Ent} {rest : List Ent}
+/-- closing the popped node: its `f` is the popped key, which becomes the new `M` -/
+theorem dinv_close {M : Int} {st : HSt Int} (D : DInv E maxCost isGoal h none M st) {e : Ent} {rest : List Ent}
     (hp : popMin intNum st.heap = some (e, rest)) (hc : e.2.2.2 ∉ st.closed) {c : Int}
     (hgc : look st.g e.2.2.2 = some c) :
-    DInv E maxCost isGoal (some e.2.2.2) c (hClose st e.2.2.2 rest) ∧ M ≤ c := by
+    DInv E maxCost isGoal h (some e.2.2.2) (c + h.getD e.2.2.2 0) (hClose st e.2.2.2 rest) := by
   obtain ⟨hm, hsub, hcov⟩ := popMin_some hp
   have hmin := popMin_min hp
   obtain ⟨c', hc', hle⟩ := D.key_ge e hm
   rw [hgc] at hc'; cases hc'
   obtain ⟨e', he', hn', hk'⟩ := D.open_key _ c hgc hc
-  have hce : c = e.1 := by have := hmin e' he'; omega
-  have hMc : M ≤ c := by have := D.heap_ge e hm; omega
-  refine ⟨⟨fun x hx => D.key_ge x (hsub x hx), ?_, ?_, ?_, D.nonneg, ?_, ?_⟩, hMc⟩
+  have hce : c + h.getD e.2.2.2 0 = e.1 := by have := hmin e' he'; omega
+  have hMc : M ≤ c + h.getD e.2.2.2 0 := by have := D.heap_ge e hm; omega
+  refine ⟨fun x hx => D.key_ge x (hsub x hx), ?_, ?_, ?_, D.nonneg, ?_, ?_⟩
   · intro v cv hv hvc
     have hvc' : v ∉ st.closed := fun h => hvc (List.mem_cons_of_mem _ h)
     obtain ⟨e'', he'', hn, hk⟩ := D.open_key v cv hv hvc'
-    rcases hcov e'' he'' with h | h
-    · exact absurd (by rw [← hn, h]; exact List.mem_cons_self) hvc
-    · exact ⟨e'', h, hn, hk⟩
+    rcases hcov e'' he'' with h' | h'
+    · exact absurd (by rw [← hn, h']; exact List.mem_cons_self) hvc
+    · exact ⟨e'', h', hn, hk⟩
   · intro u hu
-    rcases List.mem_cons.mp hu with h | h
-    · rw [h]; exact ⟨c, hgc, Int.le_refl _⟩
-    · obtain ⟨cu, hcu, hl⟩ := D.closed_le u h
+    rcases List.mem_cons.mp hu with h' | h'
+    · rw [h']; exact ⟨c, hgc, Int.le_refl _⟩
+    · obtain ⟨cu, hcu, hl⟩ := D.closed_le u h'
       exact ⟨cu, hcu, by omega⟩
   · intro x hx
     have := hmin x (hsub x hx); omega
   · intro u hu hne cu hcu hpr e' he' heu
-    rcases List.mem_cons.mp hu with h | h
-    · exact absurd (by rw [h]) hne
-    · exact D.relaxed_all u h (by simp) cu hcu hpr e' he' heu
+    rcases List.mem_cons.mp hu with h' | h'
+    · exact absurd (by rw [h']) hne
+    · exact D.relaxed_all u h' (by simp) cu hcu hpr e' he' heu
   · intro u hu hne cu hcu hpr
-    rcases List.mem_cons.mp hu with h | h
-    · exact absurd (by rw [h]) hne
-    · exact D.nongoal u h (by simp) cu hcu hpr
+    rcases List.mem_cons.mp hu with h' | h'
+    · exact absurd (by rw [h']) hne
+    · exact D.nongoal u h' (by simp) cu hcu hpr
 
-/-- after the scan: `cur` is relaxed along all its out-edges (closed neighbours by monotonicity) -/
-theorem dinv_finish (hW : ∀ e ∈ E, 0 ≤ e.2.2) {cur : Nat} {gcur : Int} {st : HSt Int}
-    (D : DInv E maxCost isGoal (some cur) gcur st) (hgc : look st.g cur = some gcur) (hg : isGoal cur = false)
+/-- after the scan: `cur` is relaxed along all its out-edges (closed neighbours by monotonicity
+and consistency) -/
+theorem dinv_finish (hcons : Consistent E h) {cur : Nat} {gcur : Int} {st : HSt Int}
+    (D : DInv E maxCost isGoal h (some cur) (gcur + h.getD cur 0) st) (hgc : look st.g cur = some gcur)
+    (hg : isGoal cur = false)
     (hdone : ∀ nb ∈ adjOf E cur, nb.1 ∈ st.closed ∨ ∃ gv, look st.g nb.1 = some gv ∧ gv ≤ gcur + nb.2) :
-    DInv E maxCost isGoal none gcur st := by
+    DInv E maxCost isGoal h none (gcur + h.getD cur 0) st := by
   refine ⟨D.key_ge, D.open_key, D.closed_le, D.heap_ge, D.nonneg, ?_, ?_⟩
   · intro u hu _ cu hcu hpr e he heu
     by_cases huc : u = cur
@@ -249,9 +265,9 @@ theorem dinv_finish (hW : ∀ e ∈ E, 0 ≤ e.2.2) {cur : Nat} {gcur : Int} {st
       obtain ⟨a, b, c⟩ := e
       simp only at heu
       subst heu
-      rcases hdone (b, c) (mem_adjOf.mpr he) with h | ⟨gv, hgv, hle⟩
-      · obtain ⟨cb, hcb, hl⟩ := D.closed_le b h
-        exact ⟨cb, hcb, by have := hW _ he; simp only at this ⊢; omega⟩
+      rcases hdone (b, c) (mem_adjOf.mpr he) with h' | ⟨gv, hgv, hle⟩
+      · obtain ⟨cb, hcb, hl⟩ := D.closed_le b h'
+        exact ⟨cb, hcb, by have := hcons _ he; simp only at this ⊢; omega⟩
       · exact ⟨gv, hgv, hle⟩
     · exact D.relaxed_all u hu (fun h => huc (Option.some.inj h).symm) cu hcu hpr e he heu
   · intro u hu _ cu hcu hpr
@@ -259,9 +275,9 @@ theorem dinv_finish (hW : ∀ e ∈ E, 0 ≤ e.2.2) {cur : Nat} {gcur : Int} {st
     · subst huc; exact hg
     · exact D.nongoal u hu (fun h => huc (Option.some.inj h).symm) cu hcu hpr
 
-theorem dinv_prune {cur : Nat} {gcur : Int} {st : HSt Int} (D : DInv E maxCost isGoal (some cur) gcur st)
+theorem dinv_prune {cur : Nat} {gcur M : Int} {st : HSt Int} (D : DInv E maxCost isGoal h (some cur) M st)
     (hgc : look st.g cur = some gcur) (hpr : pruned intNum maxCost gcur = true) :
-    DInv E maxCost isGoal none gcur st := by
+    DInv E maxCost isGoal h none M st := by
   refine ⟨D.key_ge, D.open_key, D.closed_le, D.heap_ge, D.nonneg, ?_, ?_⟩
   · intro u hu _ cu hcu hpr' e he heu
     by_cases huc : u = cur
@@ -275,15 +291,17 @@ theorem dinv_prune {cur : Nat} {gcur : Int} {st : HSt Int} (D : DInv E maxCost i
 end dinv
 
 section dloop
-variable {E : List (Edge Int)} {n s : Nat} {isGoal : Nat → Bool}
+variable {E : List (Edge Int)} {n s : Nat} {isGoal : Nat → Bool} {h : List Int}
 
-theorem dloop_inv (maxIter : Nat) (maxCost : Option Int) (hE : ∀ e ∈ E, e.2.1 < n) (hW : ∀ e ∈ E, 0 ≤ e.2.2) :
+theorem dloop_inv {fOf : Int → Nat → Int} (hf : KeyIs fOf h) (hcons : Consistent E h) (maxIter : Nat)
+    (maxCost : Option Int) (hE : ∀ e ∈ E, e.2.1 < n) (hW : ∀ e ∈ E, 0 ≤ e.2.2) :
     ∀ (fuel : Nat) (st : HSt Int) (M : Int), HInv E n s isGoal (maxCost = none) none st →
-      DInv E maxCost isGoal none M st →
-      match hLoop intNum (adjOf E) (fun g _ => g) isGoal maxIter maxCost fuel st with
+      DInv E maxCost isGoal h none M st →
+      match hLoop intNum (adjOf E) fOf isGoal maxIter maxCost fuel st with
       | .found cur st' => ∃ c, look st'.g cur = some c ∧ HInv E n s isGoal (maxCost = none) (some cur) st' ∧
-          DInv E maxCost isGoal (some cur) c st' ∧ pruned intNum maxCost c = false ∧ cur ∈ st'.closed
-      | .infeasible st' => ∃ M', DInv E maxCost isGoal none M' st'
+          DInv E maxCost isGoal h (some cur) (c + h.getD cur 0) st' ∧ pruned intNum maxCost c = false ∧
+          cur ∈ st'.closed ∧ isGoal cur = true
+      | .infeasible st' => ∃ M', DInv E maxCost isGoal h none M' st'
       | _ => True := by
   intro fuel
   induction fuel with
@@ -304,14 +322,14 @@ theorem dloop_inv (maxIter : Nat) (maxCost : Option Int) (hE : ∀ e ∈ E, e.2.
         · have hnc : e.2.2.2 ∉ st.closed := by simpa using hc
           simp only [hc]
           obtain ⟨mid, ⟨c, hgc, hgof⟩, hnp⟩ := hinv_close inv hp hnc
-          obtain ⟨Dmid, _⟩ := dinv_close D hp hnc hgc
+          have Dmid := dinv_close D hp hnc hgc
           have hcc : e.2.2.2 ∈ (hClose st e.2.2.2 rest).closed := by simp [hClose]
           have hgc' : look (hClose st e.2.2.2 rest).g e.2.2.2 = some c := by simpa [hClose] using hgc
           have hnp' : ∀ x, look (hClose st e.2.2.2 rest).parent x ≠ some e.2.2.2 := by simpa [hClose] using hnp
           rw [hgof]
           by_cases hpr : pruned intNum maxCost c = true
           · simp only [hpr, if_true]
-            apply ih _ c
+            apply ih _ (c + h.getD e.2.2.2 0)
             · apply hinv_prune _ mid hnp'
               intro h; rw [h] at hpr; simp [pruned] at hpr
             · exact dinv_prune Dmid hgc' hpr
@@ -319,48 +337,51 @@ theorem dloop_inv (maxIter : Nat) (maxCost : Option Int) (hE : ∀ e ∈ E, e.2.
             simp only [hpr]
             by_cases hg : isGoal e.2.2.2 = true
             · simp only [hg, if_true]
-              exact ⟨c, hgc', mid, Dmid, hpr', hcc⟩
+              exact ⟨c, hgc', mid, Dmid, hpr', hcc, hg⟩
             · have hg' : isGoal e.2.2.2 = false := by simpa using hg
               simp only [hg', Bool.false_eq_true, if_false]
-              obtain ⟨i, cl, gcur, pc, dn, _⟩ := hrelax_fold (fun g _ => g) hE (adjOf E e.2.2.2) (hClose st e.2.2.2 rest)
+              obtain ⟨i, cl, gcur, pc, dn, _⟩ := hrelax_fold fOf hE (adjOf E e.2.2.2) (hClose st e.2.2.2 rest)
                 (fun nb h => mem_adjOf.mp h) mid hcc hgc' (fun x h => absurd h (hnp' x))
-              have Df := drelax_fold hE hW (adjOf E e.2.2.2) (hClose st e.2.2.2 rest)
+              have Df := drelax_fold hf hcons hE hW (adjOf E e.2.2.2) (hClose st e.2.2.2 rest)
                 (fun nb h => mem_adjOf.mp h) mid Dmid hcc hgc' (fun x h => absurd h (hnp' x))
-              have hdone : ∀ nb ∈ adjOf E e.2.2.2, nb.1 ∈ ((adjOf E e.2.2.2).foldl (hRelax intNum (fun g _ => g) e.2.2.2 c)
-                  (hClose st e.2.2.2 rest)).closed ∨ ∃ gv, look ((adjOf E e.2.2.2).foldl (hRelax intNum (fun g _ => g) e.2.2.2 c)
+              have hdone : ∀ nb ∈ adjOf E e.2.2.2, nb.1 ∈ ((adjOf E e.2.2.2).foldl (hRelax intNum fOf e.2.2.2 c)
+                  (hClose st e.2.2.2 rest)).closed ∨ ∃ gv, look ((adjOf E e.2.2.2).foldl (hRelax intNum fOf e.2.2.2 c)
                   (hClose st e.2.2.2 rest)).g nb.1 = some gv ∧ gv ≤ c + nb.2 := by
                 intro nb hnb
-                rcases dn nb hnb with h | h
-                · left; rw [cl]; exact h
-                · right; exact h
-              apply ih _ c
+                rcases dn nb hnb with h' | h'
+                · left; rw [cl]; exact h'
+                · right; exact h'
+              apply ih _ (c + h.getD e.2.2.2 0)
               · exact hinv_finish i (by rw [cl]; exact hcc) gcur hg' (by rw [cl]; exact pc) hdone
-              · exact dinv_finish hW Df gcur hg' hdone
+              · exact dinv_finish hcons Df gcur hg' hdone
     · rw [if_neg hit]; trivial
 
 end dloop
 
 /-! ### the certificate at a goal pop -/
 
-theorem look_astarPot (n : Nat) (g : Tab Int) (c : Int) (v : Nat) :
-    look (astarPot n g [] c) v =
-      if v < n then (match look g v with | some x => some (if x < c then x else c) | none => some c) else none := by
+theorem look_astarPot (n : Nat) (g : Tab Int) (h : List Int) (c : Int) (v : Nat) :
+    look (astarPot n g h c) v =
+      if v < n then (match look g v with
+        | some x => some (if x < c - h.getD v 0 then x else c - h.getD v 0)
+        | none => some (c - h.getD v 0)) else none := by
   unfold astarPot look
   rw [List.getD_eq_getElem?_getD, List.getElem?_map]
-  by_cases h : v < n
-  · simp only [h, if_true, List.getElem?_range h, Option.map_some, Option.getD_some]
+  by_cases hv : v < n
+  · simp only [hv, if_true, List.getElem?_range hv, Option.map_some, Option.getD_some]
     simp only [List.getD_eq_getElem?_getD]
     cases (g[v]?).getD none <;> simp
-  · simp only [h, if_false]
+  · simp only [hv, if_false]
     rw [List.getElem?_eq_none (by simp; omega)]
     rfl
 
-theorem dijkstra_cap_cert {E : List (Edge Int)} {n s : Nat} {T : List Nat} {maxCost : Option Int}
-    (hs : s < n) (hE : ∀ e ∈ E, e.2.1 < n) (hW : ∀ e ∈ E, 0 ≤ e.2.2) {cur? : Option Nat} {c M : Int} {st : HSt Int}
-    (hc0 : 0 ≤ c) (hstart : look st.g s = some 0) (D : DInv E maxCost T.contains cur? M st)
-    (hbelow : ∀ u cu, look st.g u = some cu → cu < c →
+theorem astar_cap_cert {E : List (Edge Int)} {n s : Nat} {T : List Nat} {maxCost : Option Int} {h : List Int}
+    (hs : s < n) (hE : ∀ e ∈ E, e.2.1 < n) (hcons : Consistent E h)
+    (hgoal : ∀ t ∈ T, h.getD t 0 = 0) {cur? : Option Nat} {c M : Int} {st : HSt Int}
+    (hc0 : h.getD s 0 ≤ c) (hstart : look st.g s = some 0) (D : DInv E maxCost T.contains h cur? M st)
+    (hbelow : ∀ u cu, look st.g u = some cu → cu + h.getD u 0 < c →
       u ∈ st.closed ∧ cur? ≠ some u ∧ pruned intNum maxCost cu = false) :
-    lowerCert E s T (astarPot n st.g [] c) c = true := by
+    lowerCert E s T (astarPot n st.g h c) c = true := by
   unfold lowerCert
   simp only [Bool.and_eq_true, beq_iff_eq, List.all_eq_true]
   refine ⟨⟨?_, ?_⟩, ?_⟩
@@ -369,7 +390,7 @@ theorem dijkstra_cap_cert {E : List (Edge Int)} {n s : Nat} {T : List Nat} {maxC
     rw [List.all_eq_true]
     intro e he
     have hvn : e.2.1 < n := hE e he
-    have hw : 0 ≤ e.2.2 := hW e he
+    have hce := hcons e he
     rw [look_astarPot, look_astarPot]
     simp only [hvn, if_true]
     by_cases hun : e.1 < n
@@ -382,8 +403,8 @@ theorem dijkstra_cap_cert {E : List (Edge Int)} {n s : Nat} {T : List Nat} {maxC
         | some gv => simp only [decide_eq_true_eq]; split <;> omega
       | some cu =>
         simp only
-        by_cases hlt : cu < c
-        · obtain ⟨h1, h2, h3⟩ := hbelow e.1 cu hgu hlt
+        by_cases hlt : cu < c - h.getD e.1 0
+        · obtain ⟨h1, h2, h3⟩ := hbelow e.1 cu hgu (by omega)
           obtain ⟨gv, hgv, hle⟩ := D.relaxed_all e.1 h1 h2 cu hgu h3 e he rfl
           simp only [hgv, hlt, if_true, decide_eq_true_eq]
           split <;> omega
@@ -394,45 +415,57 @@ theorem dijkstra_cap_cert {E : List (Edge Int)} {n s : Nat} {T : List Nat} {maxC
     · simp only [hun, if_false]
   · rw [look_astarPot]
     simp only [hs, if_true, hstart]
-    by_cases h : (0 : Int) < c
-    · simp [h]
-    · have : c = 0 := by omega
-      simp [this]
+    congr 1
+    split <;> omega
   · intro t ht
     rw [look_astarPot]
+    have hgt0 := hgoal t ht
     by_cases htn : t < n
-    · simp only [htn, if_true]
+    · simp only [htn, if_true, hgt0, Int.sub_zero]
       cases hgt : look st.g t with
       | none => simp
       | some ct =>
         simp only
         by_cases hlt : ct < c
-        · obtain ⟨h1, h2, h3⟩ := hbelow t ct hgt hlt
+        · obtain ⟨h1, h2, h3⟩ := hbelow t ct hgt (by omega)
           have := D.nongoal t h1 h2 ct hgt h3
           have ht' : T.contains t = true := by simpa using ht
           rw [ht'] at this; cases this
         · simp [hlt]
     · simp [htn]
 
-theorem dijkstra_found_cert {E : List (Edge Int)} {n s : Nat} {T : List Nat} {maxCost : Option Int}
-    (hs : s < n) (hE : ∀ e ∈ E, e.2.1 < n) (hW : ∀ e ∈ E, 0 ≤ e.2.2) {cur : Nat} {c : Int} {st : HSt Int}
+theorem astar_found_cert {E : List (Edge Int)} {n s : Nat} {T : List Nat} {maxCost : Option Int} {h : List Int}
+    (hs : s < n) (hE : ∀ e ∈ E, e.2.1 < n) (hcons : Consistent E h) (hh0 : ∀ v, 0 ≤ h.getD v 0)
+    (hgoal : ∀ t ∈ T, h.getD t 0 = 0) {cur : Nat} {c : Int} {st : HSt Int}
     (hgc : look st.g cur = some c) (inv : HInv E n s T.contains (maxCost = none) (some cur) st)
-    (D : DInv E maxCost T.contains (some cur) c st) (hpr : pruned intNum maxCost c = false) (hcc : cur ∈ st.closed) :
-    lowerCert E s T (astarPot n st.g [] c) c = true := by
-  apply dijkstra_cap_cert hs hE hW (D.nonneg cur c hgc) inv.start_g D
+    (D : DInv E maxCost T.contains h (some cur) (c + h.getD cur 0) st) (hpr : pruned intNum maxCost c = false)
+    (hcc : cur ∈ st.closed) (hg : T.contains cur = true) :
+    lowerCert E s T (astarPot n st.g h c) c = true := by
+  have hcur0 : h.getD cur 0 = 0 := hgoal cur (by simpa using hg)
+  have hsc : s ∈ st.closed := by
+    rcases inv.start_c with h' | ⟨h', _⟩
+    · exact h'
+    · rw [h'] at hcc; cases hcc
+  have hs0 : h.getD s 0 ≤ c := by
+    obtain ⟨c0, hc0, hle⟩ := D.closed_le s hsc
+    rw [inv.start_g] at hc0; cases hc0
+    omega
+  apply astar_cap_cert hs hE hcons hgoal hs0 inv.start_g D
   intro u cu hcu hlt
   refine ⟨?_, ?_, ?_⟩
   · by_cases huc : u ∈ st.closed
     · exact huc
     · obtain ⟨e, he, _, hk⟩ := D.open_key u cu hcu huc
       have := D.heap_ge e he; omega
-  · intro h
-    have : cur = u := Option.some.inj h
+  · intro h'
+    have : cur = u := Option.some.inj h'
     subst this
     rw [hgc] at hcu; cases hcu; omega
   · cases hp : pruned intNum maxCost cu with
     | false => rfl
-    | true => have := pruned_mono (Int.le_of_lt hlt) hp; rw [hpr] at this; cases this
+    | true =>
+      have := hh0 u
+      have := pruned_mono (a := cu) (b := c) (by omega) hp; rw [hpr] at this; cases this
 
 theorem walk_nonneg {E : List (Edge Int)} (hW : ∀ e ∈ E, 0 ≤ e.2.2) {u t : Nat} {c : Int} (h : Walk E u t c) :
     0 ≤ c := by
@@ -440,26 +473,38 @@ theorem walk_nonneg {E : List (Edge Int)} (hW : ∀ e ∈ E, 0 ≤ e.2.2) {u t :
   | nil u => exact Int.le_refl 0
   | cons he _ ih => have := hW _ he; simp only at this; omega
 
+/-- a consistent heuristic that vanishes on the goals never overestimates -/
+theorem consistent_admissible {E : List (Edge Int)} {h : List Int} (hcons : Consistent E h) {u t : Nat} {c : Int}
+    (hw : Walk E u t c) : h.getD u 0 ≤ c + h.getD t 0 := by
+  induction hw with
+  | nil u => omega
+  | @cons u v t w c he _ ih => have := hcons _ he; simp only at this; omega
+
 open Solvor.Gen (Status) in
-theorem dijkstra_cert {E : List (Edge Int)} {n s : Nat} (T : List Nat) (maxIter : Nat) (maxCost : Option Int)
-    (hs : s < n) (hE : ∀ e ∈ E, e.2.1 < n) (hW : ∀ e ∈ E, 0 ≤ e.2.2) :
-    ((dijkstra n E s T maxIter maxCost).status = .OPTIMAL →
-      ∃ p c, (dijkstra n E s T maxIter maxCost).path = some p ∧ (dijkstra n E s T maxIter maxCost).cost = some c ∧
-        distCert E s T (astarPot n (dijkstra n E s T maxIter maxCost).g [] c) p c = true) ∧
-    ((dijkstra n E s T maxIter maxCost).status = .INFEASIBLE →
+/-- the optimality certificate for any `g + h` keyed search with a consistent heuristic -/
+theorem hsearch_cert {E : List (Edge Int)} {n s : Nat} (T : List Nat) (h : List Int) (fOf : Int → Nat → Int)
+    (hf : KeyIs fOf h) (maxIter : Nat) (maxCost : Option Int)
+    (hs : s < n) (hE : ∀ e ∈ E, e.2.1 < n) (hW : ∀ e ∈ E, 0 ≤ e.2.2) (hcons : Consistent E h)
+    (hh0 : ∀ v, 0 ≤ h.getD v 0) (hgoal : ∀ t ∈ T, h.getD t 0 = 0) :
+    ((hSearch intNum n E.length (adjOf E) fOf s T.contains maxIter maxCost .OPTIMAL).status = .OPTIMAL →
+      ∃ p c, (hSearch intNum n E.length (adjOf E) fOf s T.contains maxIter maxCost .OPTIMAL).path = some p ∧
+        (hSearch intNum n E.length (adjOf E) fOf s T.contains maxIter maxCost .OPTIMAL).cost = some c ∧
+        distCert E s T (astarPot n (hSearch intNum n E.length (adjOf E) fOf s T.contains maxIter maxCost .OPTIMAL).g h c)
+          p c = true) ∧
+    ((hSearch intNum n E.length (adjOf E) fOf s T.contains maxIter maxCost .OPTIMAL).status = .INFEASIBLE →
       ∀ t ∈ T, ∀ c, Walk E s t c → match maxCost with | none => False | some m => m < c) := by
-  have h1 := hloop_inv (E := E) (n := n) (s := s) (isGoal := T.contains) (fun g _ => g) maxIter maxCost hE
-    (E.length + 2) _ (hinv_init (noCost := maxCost = none) (fun g _ => g) hs)
-  have h2 := dloop_inv (E := E) (n := n) (s := s) (isGoal := T.contains) maxIter maxCost hE hW
-    (E.length + 2) _ 0 (hinv_init (noCost := maxCost = none) (fun g _ => g) hs) (dinv_init hs)
+  have h1 := hloop_inv (E := E) (n := n) (s := s) (isGoal := T.contains) fOf maxIter maxCost hE
+    (E.length + 2) _ (hinv_init (noCost := maxCost = none) fOf hs)
+  have h2 := dloop_inv (E := E) (n := n) (s := s) (isGoal := T.contains) hf hcons maxIter maxCost hE hW
+    (E.length + 2) _ _ (hinv_init (noCost := maxCost = none) fOf hs) (dinv_init hf hs)
   have h3 := hresult_sound (E := E) (n := n) (s := s) T maxCost .OPTIMAL ⟨by decide, by decide⟩ _ h1
-  unfold dijkstra hSearch
-  generalize hLoop intNum (adjOf E) (fun g _ => g) T.contains maxIter maxCost (E.length + 2)
-    (hInit intNum n (fun g _ => g) s) = out at h1 h2 h3 ⊢
+  unfold hSearch
+  generalize hLoop intNum (adjOf E) fOf T.contains maxIter maxCost (E.length + 2)
+    (hInit intNum n fOf s) = out at h1 h2 h3 ⊢
   cases out with
   | found cur st' =>
     refine ⟨fun hst => ?_, fun h => (by cases h)⟩
-    obtain ⟨c, hgc, inv, D, hpr, hcc⟩ := h2
+    obtain ⟨c, hgc, inv, D, hpr, hcc, hg⟩ := h2
     obtain ⟨p, c', hp, hc', hok⟩ := h3.1 hst
     have hcc' : c' = c := by
       have : (hResult n Status.OPTIMAL (HOut.found cur st')).cost = look st'.g cur := rfl
@@ -468,7 +513,7 @@ theorem dijkstra_cert {E : List (Edge Int)} {n s : Nat} (T : List Nat) (maxIter 
     refine ⟨p, c', hp, hc', ?_⟩
     unfold distCert
     rw [Bool.and_eq_true]
-    exact ⟨dijkstra_found_cert hs hE hW hgc inv D hpr hcc, hok⟩
+    exact ⟨astar_found_cert hs hE hcons hh0 hgoal hgc inv D hpr hcc hg, hok⟩
   | infeasible st' =>
     refine ⟨fun h => (by cases h), fun _ t ht c hw => ?_⟩
     cases hmc : maxCost with
@@ -477,19 +522,22 @@ theorem dijkstra_cert {E : List (Edge Int)} {n s : Nat} (T : List Nat) (maxIter 
       simp only
       obtain ⟨inv, hheap⟩ := h1
       obtain ⟨M', D⟩ := h2
-      by_cases hm : 0 ≤ m + 1
-      · have hcert : lowerCert E s T (astarPot n st'.g [] (m + 1)) (m + 1) = true := by
-          apply dijkstra_cap_cert hs hE hW hm inv.start_g D
+      by_cases hm : h.getD s 0 ≤ m + 1
+      · have hcert : lowerCert E s T (astarPot n st'.g h (m + 1)) (m + 1) = true := by
+          apply astar_cap_cert hs hE hcons hgoal hm inv.start_g D
           intro u cu hcu hlt
           refine ⟨?_, by simp, ?_⟩
           · by_cases huc : u ∈ st'.closed
             · exact huc
             · obtain ⟨e, he, _, _⟩ := D.open_key u cu hcu huc
               rw [hheap] at he; cases he
-          · rw [hmc]; simp only [pruned, intNum, decide_eq_false_iff_not]; omega
+          · have := hh0 u
+            rw [hmc]; simp only [pruned, intNum, decide_eq_false_iff_not]; omega
         have := lowerCert_sound' hcert t ht c hw
         omega
-      · have := walk_nonneg hW hw; omega
+      · have := consistent_admissible hcons hw
+        have := hgoal t ht
+        omega
   | maxIter st' => exact ⟨fun h => (by cases h), fun h => (by cases h)⟩
   | fuel => exact ⟨fun h => (by cases h), fun h => (by cases h)⟩
 
